@@ -13,7 +13,8 @@ EXTENDS Eval, Lattice, Json
 
 VARIABLE c
 
-Case(op, a, b, p) == [op |-> op, a |-> a, b |-> b, p |-> p, exp |-> Eval(op, a, b, p)]
+Case(op, a, b, p) == [op |-> op, a |-> a, b |-> b, p |-> p, exp |-> Eval(op, a, b, p),
+                      reg |-> IF Regular(a) /\ (b = None \/ Regular(b)) THEN "T" ELSE "F"]
 
 Dims(lo) == {n \in 2..4 : n >= lo}
 VecsFrom(lo) == UNION {VecOfDim(n) : n \in Dims(lo)}
